@@ -8,10 +8,13 @@ to the pointer structure by the heap layer (`Model/C03Heap.lean`).  Every functi
 flow of the Python routine named in its comment: iteration order, which child survives a collapse,
 where a re-inserted child lands, how `None` lengths are merged.
 
-Where the unrepaired code contradicts the property the model follows the property:
+The model follows the repaired code (fix commits of 2026-09-29), which is what the property demands:
 * `collapse_unweighted_edges` collapses only *internal* edges (`(None or <= thr) and internal`);
 * `to_outgroup_position` puts the outgroup in place first and cleans up afterwards, never dissolving
-  the outgroup or the new seed it still holds. -/
+  the outgroup or the new seed it still holds;
+* `randomly_reorient` re-seeds (instead of calling `to_outgroup_position`) when the drawn leaf is the seed;
+* the pruning routines hand `suppress_unifurcations` on to `update_bipartitions`; `prune_subtree` also
+  removes ancestors left childless; `collapse_basal_bifurcation` merges lengths with `None` as absent. -/
 namespace DendroModel.C03
 open DendroModel
 
@@ -60,7 +63,7 @@ def parentOfL (c : Nat) : List T → Option Nat
     | none => parentOfL c xs
 end
 
-/-- `a += b` inside a bare `try` (`remove_child`, `collapse_basal_bifurcation`, `_convert_node_to_root_polytomy`):
+/-- `a += b` inside a bare `try` (`remove_child`, `_convert_node_to_root_polytomy`):
 a `None` on either side raises `TypeError`, which is swallowed, so `a` is unchanged -/
 def tryAdd (a b : Option Frac) : Option Frac :=
   match a, b with
